@@ -1,3 +1,216 @@
-/-! C07 model (stub) -/
+/-!
+# C07 model, part A: generated pointer slices (`[]*T`) over a heap
+
+Transliteration of `pdata/internal/cmd/pdatagen/internal/templates/slice.go.tmpl` (type `sliceOfPtrs`,
+e.g. `plog.LogRecordSlice`) for elements with one mutable scalar field.
+
+* heap: `objs : Nat → Nat` (the scalar field of the element a pointer refers to), bump allocator `next`;
+* a slice header owns its backing array, split at `len`: `live` = slots `[0,len)`, `tail` = slots
+  `[len,cap)`.  The tail holds `none` (nil pointers left by `make(len, cap)` in `EnsureCapacity`/growth)
+  or **stale pointers** (left by `RemoveIf`, by re-slicing in `CopyTo`, by `append` into a moved array).
+  No invariant is ever assumed about the tail: it is arbitrary garbage.
+* handles: every `Nat` names a slice (initially the nil slice), `ro` is the `internal.State` flag of
+  the payload the slice belongs to.
+* Go's growth policy is not modelled: `append` takes the capacity observed after growth as an input.
+
+`copyTo` is the **repaired** `CopyTo` (commit `fix: pdata CopyTo must not reuse slots beyond len`):
+slots `[len(dest), len(src))` are freshly allocated, never read from the tail.  `copyToPinned` is the
+code as pinned (re-uses whatever is in the tail), kept to show what the repair is needed for.
+-/
 namespace OtelVerif.C07
+
+-- object ids are plain `Nat` (an `abbrev` hides the type from `omega`)
+
+def upd {β : Type} (f : Nat → β) (i : Nat) (v : β) : Nat → β := fun j => if j = i then v else f j
+
+/-- slice header + the backing array it points into -/
+structure Hdr where
+  live : List Nat := []
+  tail : List (Option Nat) := []
+deriving Repr, DecidableEq
+
+def Hdr.cap (h : Hdr) : Nat := h.live.length + h.tail.length
+/-- `*orig == nil`; every reachable non-nil slice has `cap > 0` -/
+def Hdr.isNil (h : Hdr) : Bool := h.live.isEmpty && h.tail.isEmpty
+
+structure St where
+  objs : Nat → Nat
+  next : Nat
+  hd : Nat → Hdr
+  ro : Nat → Bool
+
+def St.init : St := { objs := fun _ => 0, next := 0, hd := fun _ => {}, ro := fun _ => false }
+
+inductive Op
+  /-- `es.AppendEmpty()`; `newCap` = capacity observed afterwards (used only if the append had to grow) -/
+  | append (a newCap : Nat)
+  /-- `es.At(i).SetX(v)` -/
+  | set (a i v : Nat)
+  /-- `es.RemoveIf(f)`, `mask` = the answers of `f` in call order (missing answers = false) -/
+  | removeIf (a : Nat) (mask : List Bool)
+  | ensureCap (a n : Nat)
+  /-- `es.Sort(less)` with `less(x, y) = x.X() < y.X()` (`sort.SliceStable`) -/
+  | sort (a : Nat)
+  /-- `a.CopyTo(b)` -/
+  | copyTo (a b : Nat)
+  /-- `a.MoveAndAppendTo(b)`; `newCap` as for `append` -/
+  | moveAndAppendTo (a b newCap : Nat)
+  /-- `MarkReadOnly()` on the payload owning slice `a` -/
+  | markRO (a : Nat)
+deriving Repr, DecidableEq
+
+/-- the elements for which `f` answered false, in order -/
+def keep {α : Type} : List α → List Bool → List α
+  | [], _ => []
+  | x :: xs, [] => x :: xs
+  | x :: xs, m :: ms => if m then keep xs ms else x :: keep xs ms
+
+/-- `*orig = append(*orig, &T{})` -/
+def appendEmpty (s : St) (a newCap : Nat) : St :=
+  let h := s.hd a
+  let o := s.next
+  let h' : Hdr :=
+    { live := h.live ++ [o]
+      tail := match h.tail with
+        | _ :: t => t                                                       -- len < cap: written in place
+        | [] => List.replicate (newCap - (h.live.length + 1)) none }        -- grown: new array, nil beyond len
+  { s with objs := upd s.objs o 0, next := o + 1, hd := upd s.hd a h' }
+
+/-- `RemoveIf`: kept pointers are compacted to the front (all writes go to indices below the final
+length), the array beyond the new length keeps what was there: stale pointers -/
+def removeIf (s : St) (a : Nat) (mask : List Bool) : St :=
+  let h := s.hd a
+  let kept := keep h.live mask
+  { s with hd := upd s.hd a { live := kept, tail := (h.live.drop kept.length).map some ++ h.tail } }
+
+/-- `EnsureCapacity`: `make([]*T, len, newCap)` + `copy` -/
+def ensureCap (s : St) (a n : Nat) : St :=
+  let h := s.hd a
+  if n ≤ h.cap then s
+  else { s with hd := upd s.hd a { live := h.live, tail := List.replicate (n - h.live.length) none } }
+
+def sortH (s : St) (a : Nat) : St :=
+  let h := s.hd a
+  { s with hd := upd s.hd a { h with live := h.live.mergeSort (fun x y => decide (s.objs x ≤ s.objs y)) } }
+
+/-- element-wise `src[i].CopyTo(dest[i])`, sequentially -/
+def assign (objs : Nat → Nat) : List Nat → List Nat → (Nat → Nat)
+  | d :: ds, x :: xs => assign (upd objs d (objs x)) ds xs
+  | _, _ => objs
+
+/-- repaired `CopyTo` -/
+def copyTo (s : St) (a b : Nat) : St :=
+  let src := (s.hd a).live
+  let d := s.hd b
+  let n := src.length
+  if n ≤ d.cap then
+    -- (*dest.orig) = (*dest.orig)[:srcLen:destCap]; for i := destLen; i < srcLen; i++ { (*dest.orig)[i] = &T{} }
+    let k := n - d.live.length
+    let fresh := List.range' s.next k
+    let newLive := d.live.take n ++ fresh
+    { s with objs := assign s.objs newLive src, next := s.next + k,
+             hd := upd s.hd b { live := newLive, tail := (d.live.drop n).map some ++ d.tail.drop k } }
+  else
+    -- origs := make([]T, srcLen); wrappers[i] = &origs[i]
+    let fresh := List.range' s.next n
+    { s with objs := assign s.objs fresh src, next := s.next + n, hd := upd s.hd b { live := fresh, tail := [] } }
+
+/-- `CopyTo` as pinned: re-slices up to `srcLen` and copies into whatever the tail holds.
+`none` = the nil dereference (the slice is left re-sliced, elements before the nil slot copied). -/
+def assignPinned (objs : Nat → Nat) : List (Option Nat) → List Nat → Option (Nat → Nat)
+  | some d :: ds, x :: xs => assignPinned (upd objs d (objs x)) ds xs
+  | none :: _, _ :: _ => none
+  | _, _ => some objs
+
+def copyToPinned (s : St) (a b : Nat) : Option St :=
+  let src := (s.hd a).live
+  let d := s.hd b
+  let n := src.length
+  if n ≤ d.cap then
+    let arr := d.live.map some ++ d.tail
+    match assignPinned s.objs (arr.take n) src with
+    | some objs' => some { s with objs := objs', hd := upd s.hd b { live := (arr.take n).filterMap id, tail := arr.drop n } }
+    | none => none
+  else
+    let fresh := List.range' s.next n
+    some { s with objs := assign s.objs fresh src, next := s.next + n, hd := upd s.hd b { live := fresh, tail := [] } }
+
+/-- `MoveAndAppendTo` -/
+def moveAndAppendTo (s : St) (a b newCap : Nat) : St :=
+  let src := s.hd a
+  let d := s.hd b
+  let d' : Hdr :=
+    if d.isNil then src
+    else if src.live.length ≤ d.tail.length then
+      { live := d.live ++ src.live, tail := d.tail.drop src.live.length }
+    else { live := d.live ++ src.live, tail := List.replicate (newCap - (d.live.length + src.live.length)) none }
+  { s with hd := upd (upd s.hd b d') a {} }
+
+/-- one public call; the `Bool` says whether it panicked (state then unchanged: every mutator starts
+with `AssertMutable`, `At(i)` bounds-checks before anything is written) -/
+def step (s : St) : Op → St × Bool
+  | .append a c => if s.ro a then (s, true) else (appendEmpty s a c, false)
+  | .set a i v =>
+    if s.ro a then (s, true) else
+    match (s.hd a).live[i]? with
+    | some o => ({ s with objs := upd s.objs o v }, false)
+    | none => (s, true)
+  | .removeIf a m => if s.ro a then (s, true) else (removeIf s a m, false)
+  | .ensureCap a n => if s.ro a then (s, true) else (ensureCap s a n, false)
+  | .sort a => if s.ro a then (s, true) else (sortH s a, false)
+  | .copyTo a b => if s.ro b then (s, true) else (copyTo s a b, false)
+  | .moveAndAppendTo a b c => if s.ro a || s.ro b then (s, true) else (moveAndAppendTo s a b c, false)
+  | .markRO a => ({ s with ro := upd s.ro a true }, false)
+
+/-- the handles whose content an op may change (everything else must stay as it was) -/
+def targets : Op → List Nat
+  | .append a _ | .set a _ _ | .removeIf a _ | .ensureCap a _ | .sort a => [a]
+  | .copyTo _ b => [b]
+  | .moveAndAppendTo a b _ => [a, b]
+  | .markRO _ => []
+
+def run (s : St) : List Op → St
+  | [] => s
+  | op :: ops => run (step s op).1 ops
+
+/-! ## pure specification: named lists with assignment semantics -/
+
+structure PSt where
+  val : Nat → List Nat
+  ro : Nat → Bool
+
+def PSt.init : PSt := { val := fun _ => [], ro := fun _ => false }
+
+def pstep (p : PSt) : Op → PSt × Bool
+  | .append a _ => if p.ro a then (p, true) else ({ p with val := upd p.val a (p.val a ++ [0]) }, false)
+  | .set a i v =>
+    if p.ro a then (p, true) else
+    if i < (p.val a).length then ({ p with val := upd p.val a ((p.val a).set i v) }, false) else (p, true)
+  | .removeIf a m => if p.ro a then (p, true) else ({ p with val := upd p.val a (keep (p.val a) m) }, false)
+  | .ensureCap a _ => if p.ro a then (p, true) else (p, false)
+  | .sort a =>
+    if p.ro a then (p, true) else ({ p with val := upd p.val a ((p.val a).mergeSort (fun x y => decide (x ≤ y))) }, false)
+  | .copyTo a b => if p.ro b then (p, true) else ({ p with val := upd p.val b (p.val a) }, false)
+  | .moveAndAppendTo a b _ =>
+    if p.ro a || p.ro b then (p, true) else ({ p with val := upd (upd p.val b (p.val b ++ p.val a)) a [] }, false)
+  | .markRO a => ({ p with ro := upd p.ro a true }, false)
+
+def prun (p : PSt) : List Op → PSt
+  | [] => p
+  | op :: ops => prun (pstep p op).1 ops
+
+/-- what the public readers (`Len`, `At(i).X()`) show -/
+def abs (s : St) : PSt := { val := fun a => (s.hd a).live.map s.objs, ro := s.ro }
+
+/-! ## executable property oracle on observations (search oracle of the driver)
+
+`obsStep before op after panicked` holds when what the implementation showed after `op` (contents
+of handles `0..H-1`) is what the pure specification says, given what it showed before. -/
+
+def eqUpTo (H : Nat) (f g : Nat → List Nat) : Bool := (List.range H).all (fun a => f a == g a)
+
+def obsStep (H : Nat) (before : PSt) (op : Op) (after : Nat → List Nat) (panicked : Bool) : Bool :=
+  let r := pstep before op
+  (r.2 == panicked) && eqUpTo H r.1.val after
+
 end OtelVerif.C07
